@@ -53,6 +53,11 @@ const ALICE: Caller = Caller { tag: "alice", user: "alice", groups: &["users", "
 const ALICE_NOGROUPS: Caller = Caller { tag: "alice-nogroups", user: "alice", groups: &[], process: "tool", exe: "/usr/bin/tool" };
 const BOB: Caller = Caller { tag: "bob", user: "bob", groups: &["admins"], process: "tool", exe: "/opt/bob/tool" };
 const CAROL: Caller = Caller { tag: "carol", user: "carol", groups: &["users"], process: "other", exe: "/usr/bin/other" };
+// callers that differ from ALICE in the letter case of ONE attribute only (a different account / group / process / file on Linux)
+const ALICE_USER_CASE: Caller = Caller { tag: "Alice(user in other case)", user: "Alice", groups: &["users", "admins"], process: "tool", exe: "/usr/bin/tool" };
+const ALICE_GROUP_CASE: Caller = Caller { tag: "alice(groups in other case)", user: "alice", groups: &["Users", "ADMINS"], process: "tool", exe: "/usr/bin/tool" };
+const ALICE_PROC_CASE: Caller = Caller { tag: "alice(process in other case)", user: "alice", groups: &["users", "admins"], process: "Tool", exe: "/usr/bin/tool" };
+const ALICE_EXE_CASE: Caller = Caller { tag: "alice(exe in other case)", user: "alice", groups: &["users", "admins"], process: "tool", exe: "/usr/bin/Tool" };
 const DAVE: Caller = Caller { tag: "dave", user: "dave", groups: &["wheel", "users"], process: "tool", exe: "/usr/bin/tool" };
 
 // ---------------------------------------------------------------------------------------------------------------------
@@ -330,7 +335,7 @@ fn console_vxw_c02() {
                         for da in ["allow", "deny"] {
                             let d = doc("enforce", da, vec![priv_("p", "/machine", None)], vec![role("r", &["p"])],
                                 vec![ident("i", *u, *g, *p, *e)], vec![assign("r", &["i"])]);
-                            ctx.check("B.identity", &d, &[&ALICE, &ALICE_NOGROUPS, &BOB, &CAROL, &DAVE], &[&U_GS, &U_OTHER]);
+                            ctx.check("B.identity", &d, &[&ALICE, &ALICE_NOGROUPS, &BOB, &CAROL, &DAVE, &ALICE_USER_CASE, &ALICE_GROUP_CASE, &ALICE_PROC_CASE, &ALICE_EXE_CASE], &[&U_GS, &U_OTHER]);
                         }
                     }
                 }
